@@ -30,9 +30,9 @@ DISTS_QUICK = ['empty', 'single_low', 'single_mid', 'last', 'lognormal', 'twopea
 DISTS_THOROUGH = ['empty', 'single_low', 'single_mid', 'last', 'lognormal', 'subunit']
 
 OPS_QUICK = (['add1', 'add3', 'half', 'double', 'fifth', 'cut', 'wide', 'lowmin', 'raisemin', 'adjF', 'adjT', 'backup', 'revert', 'reset',
-              'load_a', 'load_b'] + ['upd_' + d for d in DISTS_QUICK])
+              'load_a', 'load_b', 'rt_first', 'rt_last', 'rt_mid', 'rec_off', 'rec_on'] + ['upd_' + d for d in DISTS_QUICK])
 OPS_THOROUGH = (['add1', 'add3', 'half', 'double', 'fifth', 'cut', 'wide', 'lowmin', 'raisemin', 'adjF', 'adjT', 'backup', 'revert', 'reset',
-                 'load_a'] + ['upd_' + d for d in DISTS_THOROUGH])
+                 'load_a', 'rt_last', 'rt_mid', 'rec_off', 'rec_on'] + ['upd_' + d for d in DISTS_THOROUGH])
 
 
 class St:
@@ -77,6 +77,14 @@ def enabled(st, op):
     p = st.pbm
     if op == 'revert':
         return st.backup_valid
+    if op in ('rt_first', 'rt_last'):
+        return bool(p._record) and p._recordedTime is not None and len(p._recordedTime) >= 2
+    if op == 'rt_mid':
+        return bool(p._record) and p._recordedTime is not None and len(p._recordedTime) >= 3
+    if op == 'rec_off':
+        return bool(p._record)
+    if op == 'rec_on':
+        return not p._record
     if op.startswith('upd_') and p._record and p._adaptiveBinSize and p.bins > p.maxBins:
         # the models always call adjustSizeClassesEuler right after UpdatePBMEuler, which restores bins <= maxBins
         # before the next recording; recording a wider grid in adaptive mode is outside the documented use
@@ -153,6 +161,27 @@ def apply(st, op):
         p.reset()
         st.backup_valid = False
         info['kind'] = 'reset'
+    elif op in ('rt_first', 'rt_last', 'rt_mid'):
+        # load the distribution of a recorded time (public: setPSDtoRecordedTime); rt_mid asks for the middle of the last interval
+        rt = np.asarray(p._recordedTime, dtype=float)
+        idx = {'rt_first': 1, 'rt_last': len(rt) - 1}.get(op)
+        tq = float(rt[idx]) if idx is not None else 0.5 * float(rt[-2] + rt[-1])
+        if op == 'rt_first':
+            tq = float(rt[0])          # at or below the first recorded time: the first row (the empty constructor grid)
+            idx = 0
+        info['row'] = idx
+        info['rows'] = (np.array(p._recordedBins[-2:], copy=True), np.array(p._recordedPSD[-2:], copy=True))
+        info['row_b'] = None if idx is None else np.array(p._recordedBins[idx], copy=True)
+        info['row_p'] = None if idx is None else np.array(p._recordedPSD[idx], copy=True)
+        p.setPSDtoRecordedTime(tq)
+        info['kind'] = 'rectime'
+    elif op == 'rec_off':
+        p.disableRecording()
+        info['kind'] = 'rec-off'
+    elif op == 'rec_on':
+        p.enableRecording()            # documented: starts a fresh record (one all-zero row)
+        st.nrec = 1
+        info['kind'] = 'rec-on'
     elif op in ('load_a', 'load_b'):
         lo, hi = p.PSDbounds[0], p.PSDbounds[-1]
         if op == 'load_a':
@@ -320,6 +349,25 @@ def transition_oracles(st, op, info, hist):
         ref = np.linspace(cmin, max(10 * cmin, cmax), bins + 1)
         if p.bins != bins or np.asarray(p.PSDbounds).tobytes() != ref.tobytes() or np.any(p.PSD != 0):
             bad('reset', 'grid after reset is not the constructor grid')
+    if kind == 'rectime':
+        if info['row'] is not None:
+            rb, rp = info['row_b'], info['row_p']
+            nz = int(np.count_nonzero(rb))
+            if nz == 0:
+                cmin, cmax, bins, _, _, _, _ = BASES[st.base]
+                wantb, wantp = np.linspace(cmin, max(10 * cmin, cmax), bins + 1), np.zeros(bins)
+            else:
+                wantb, wantp = rb[:nz], rp[:nz - 1]
+            if np.asarray(p.PSDbounds, dtype=float).tobytes() != np.asarray(wantb, dtype=float).tobytes() \
+                    or np.asarray(p.PSD, dtype=float).tobytes() != np.asarray(wantp, dtype=float).tobytes():
+                bad('recorded-time-row', 'state after setPSDtoRecordedTime differs from the recorded row %d' % info['row'], detail=op)
+        else:
+            (b2, p2) = info['rows']
+            if b2[0].tobytes() == b2[1].tobytes():
+                nz = int(np.count_nonzero(b2[1]))
+                want = 0.5 * (p2[0][:max(nz - 1, 0)] + p2[1][:max(nz - 1, 0)])
+                if nz and (len(p.PSD) != len(want) or not np.allclose(p.PSD, want, rtol=1e-12, atol=0)):
+                    bad('recorded-time-interpolation', 'half way between two rows on the same grid the PSD is not their mean', detail=op)
     if kind == 'load':
         if float(np.sum(p.PSD)) != float(info['ndata']):
             bad('load-count', 'loaded %d radii, PSD sums to %r' % (info['ndata'], float(np.sum(p.PSD))))
